@@ -21,7 +21,7 @@ if REPO not in sys.path:
     sys.path.insert(0, REPO)
 
 MARKERS = ("_type", "_bytes", "_bytesio")
-STRINGS = ["", "x", "_type", "_bytes", "_bytesio", "PdfContent", "é中 \"q\"\n"]
+STRINGS = ["", "x", "_type", "_bytes", "_bytesio", "PdfContent", "é中 \"q\"\n", "\ufeff lead", " pad\t", "caf\udce9", "\x00\x1f", "\U0001f600\u2028"]
 SAFE_KEYS = ["k", "type", "bytes_", "Unnamed: 0"]
 PRIM = {str: 1, int: 2, float: 3, bool: 4}
 
@@ -357,9 +357,19 @@ def f5_xlsx_duration():
 def cli_shapes():
     """--json / --json-unit: object for one result, array for several; equal to to_json."""
     from sharepoint2text import cli
-    from sharepoint2text.parsing.extractors.data_types import PlainTextContent
+    from sharepoint2text.parsing.extractors.data_types import EmailAddress, EmailAttachment, EmailContent, PlainTextContent, RtfContent, RtfImage
     from sharepoint2text.parsing.extractors.serialization import serialize_extraction
-    a, b = PlainTextContent(content="one"), PlainTextContent(content="two")
+    r0 = _cli_shapes_for(PlainTextContent(content="one"), PlainTextContent(content="two"))
+    if r0:
+        return r0
+    # results that carry binary payloads: the include_binary flag must reach every result and every unit
+    return _cli_shapes_for(RtfContent(full_text="t", images=[RtfImage(image_type="png", data=b"\x89PNG", image_index=1)]),
+                           EmailContent(from_email=EmailAddress(), body_plain="b", attachments=[EmailAttachment(filename="f", mime_type="m", data=io.BytesIO(b"att"))]))
+
+
+def _cli_shapes_for(a, b):
+    from sharepoint2text import cli
+    from sharepoint2text.parsing.extractors.serialization import serialize_extraction
     for binary in (False, True):
         try:
             one = cli._serialize_results([a], include_binary=binary)
@@ -406,6 +416,364 @@ def fixtures_scope(limit=40):
     return None, n
 
 
+# ------------------------------------------------------ directed searches --
+# Each returns None or a failure record {"target", "inputs", "expected", "observed"}; all are BOUNDED scopes.
+def _pattern(n):
+    base = bytes(range(256)) * 16
+    return (base * (n // len(base) + 1))[:n]
+
+
+def module_int_constants(mod, lo=8, hi=1 << 23):
+    return sorted({v for k, v in vars(mod).items() if isinstance(v, int) and not isinstance(v, bool) and lo <= v <= hi})
+
+
+def b64_helpers_scope():
+    """The four base64 helpers at boundary sizes: small sizes, and around every integer constant of the module
+    (block / threshold sizes), for bytes, bytearray and streams at position 0 / middle / end."""
+    from sharepoint2text.parsing.extractors import serialization as S
+    import base64
+    sizes = {0, 1, 2, 3, 4, 5, 6, 7, 57, 58, 76, 77, 255, 256, 1023, 1025, 4097, 65537}
+    for c in module_int_constants(S):
+        sizes |= {c - 1, c, c + 1, c + 2, 2 * c, 2 * c + 1, 3 * c + 1}
+    for n in sorted(x for x in sizes if x >= 0):
+        data = _pattern(n)
+        want = base64.b64encode(data).decode("ascii")
+        for label, arg in (("bytes", data), ("bytearray", bytearray(data))):
+            try:
+                enc = S._bytes_to_base64(arg)
+                back = S._base64_to_bytes(enc)
+            except Exception as e:  # noqa
+                return {"target": "serialization._bytes_to_base64", "inputs": {"kind": label, "length": n}, "expected": "base64 text that decodes to the payload",
+                        "observed": f"{type(e).__name__}: {e}"}
+            if not isinstance(enc, str) or back != data or enc != want:
+                return {"target": "serialization._bytes_to_base64", "inputs": {"kind": label, "length": n, "payload": "bytes(range(256)) repeated"},
+                        "expected": "the base64 text of the payload; _base64_to_bytes restores all of it",
+                        "observed": f"restored {len(back)} of {n} bytes; text length {len(enc)} vs {len(want)}"}
+        for pos in sorted({0, n // 2, n}):
+            buf = io.BytesIO(data)
+            buf.seek(pos)
+            try:
+                enc = S._bytesio_to_base64(buf)
+                back = S._base64_to_bytesio(enc)
+            except Exception as e:  # noqa
+                return {"target": "serialization._bytesio_to_base64", "inputs": {"length": n, "position": pos}, "expected": "base64 text of the whole payload",
+                        "observed": f"{type(e).__name__}: {e}"}
+            if enc != want or back.getvalue() != data or buf.tell() != pos:
+                return {"target": "serialization._bytesio_to_base64", "inputs": {"length": n, "position": pos},
+                        "expected": "whole payload encoded, position restored, payload restored",
+                        "observed": f"restored {len(back.getvalue())} of {n} bytes, position {buf.tell()}"}
+    return None
+
+
+def b64_api_level(n):
+    """The same failure through the public API: an image whose bytes field has the failing size."""
+    from sharepoint2text.parsing.extractors.data_types import RtfContent, RtfImage
+    x = RtfContent(images=[RtfImage(image_type="png", data=_pattern(n), image_index=1)])
+    return check_instance(x, {"builder": "RtfContent(images=[RtfImage(data=<payload>)])", "payload_length": n})
+
+
+NORM_TOKENS = [" ", "\n", "\t", "﻿", " ", "​", "\x00", "x", "é"]
+
+
+def post_init_scope(max_len=3):
+    """Dataclasses with a __post_init__: the normalisation must be idempotent, otherwise from_json (which runs the
+    constructor again) changes to_json.  Every str field gets every token sequence up to max_len over whitespace /
+    BOM / NBSP / zero-width / NUL / letters."""
+    import itertools
+    from sharepoint2text.parsing.extractors.serialization import _get_type_registry
+    seqs = ["".join(t) for k in range(1, max_len + 1) for t in itertools.product(NORM_TOKENS, repeat=k)]
+    n = 0
+    for name, cls in sorted(_get_type_registry().items()):
+        if "__post_init__" not in cls.__dict__ or getattr(cls, "_is_protocol", False):
+            continue
+        hints = typing.get_type_hints(cls)
+        str_fields = [f.name for f in dataclasses.fields(cls) if f.init and hints[f.name] in (str, typing.Optional[str])]
+        if not str_fields:
+            continue
+        base = Gen(1).instance(cls)
+        for fld in str_fields:
+            for sv_ in seqs:
+                kw = {f.name: getattr(base, f.name) for f in dataclasses.fields(cls) if f.init}
+                kw[fld] = sv_
+                try:
+                    x = cls(**kw)
+                except Exception:  # noqa  (constructor rejects the value: not an instance)
+                    continue
+                n += 1
+                r = check_instance(x, {"class": name, "field": fld, "constructed_with": sv_, "stored": getattr(x, fld, None)})
+                if r is not None:
+                    return r, n
+    return None, n
+
+
+ODS_NS = ('xmlns:office="urn:oasis:names:tc:opendocument:xmlns:office:1.0" xmlns:table="urn:oasis:names:tc:opendocument:xmlns:table:1.0" '
+          'xmlns:text="urn:oasis:names:tc:opendocument:xmlns:text:1.0"')
+
+
+def build_ods(cells):
+    """cells: list of (attribute string, text) -> bytes of an .ods with header row + one row."""
+    import zipfile
+    from xml.sax.saxutils import escape
+    hdr = "".join(f'<table:table-cell office:value-type="string"><text:p>c{i}</text:p></table:table-cell>' for i in range(len(cells)))
+    row = "".join(f'<table:table-cell {a}><text:p>{escape(t)}</text:p></table:table-cell>' for a, t in cells)
+    content = (f'<?xml version="1.0"?><office:document-content {ODS_NS}><office:body><office:spreadsheet><table:table table:name="S">'
+               f'<table:table-row>{hdr}</table:table-row><table:table-row>{row}</table:table-row></table:table></office:spreadsheet></office:body>'
+               f'</office:document-content>')
+    buf = io.BytesIO()
+    with zipfile.ZipFile(buf, "w", zipfile.ZIP_DEFLATED) as z:
+        z.writestr("mimetype", "application/vnd.oasis.opendocument.spreadsheet")
+        z.writestr("content.xml", content)
+        z.writestr("META-INF/manifest.xml", '<?xml version="1.0"?><manifest:manifest xmlns:manifest="urn:oasis:names:tc:opendocument:xmlns:manifest:1.0"/>')
+    return buf.getvalue()
+
+
+def ods_cells_scope():
+    """Every ODF cell value type x a family of attribute values (whole, fractional, negative, exponent, text, empty)."""
+    from sharepoint2text.parsing.extractors.open_office.ods_extractor import read_ods
+    numbers = ["0", "1", "-3", "19.99", "0.1", "-1234.5", "1e3", "1E-2", "12345678901234567890", "abc", ""]
+    cases = []
+    for vt in ("float", "currency", "percentage"):
+        cases += [(f'office:value-type="{vt}" office:value="{v}"', v or "t") for v in numbers]
+    cases += [(f'office:value-type="date" office:date-value="{v}"', v or "t") for v in ("2024-01-02", "2024-01-02T03:04:05", "garbage", "")]
+    cases += [(f'office:value-type="time" office:time-value="{v}"', v or "t") for v in ("PT1H30M00S", "PT0S", "")]
+    cases += [(f'office:value-type="boolean" office:boolean-value="{v}"', v or "t") for v in ("true", "false", "TRUE", "x", "")]
+    cases += [('office:value-type="string"', v) for v in ("text", "_type", "")] + [("", "untyped"), ('office:value-type="void"', "v")]
+    n = 0
+    for attrs, text in cases:
+        try:
+            results = list(read_ods(io.BytesIO(build_ods([(attrs, text)])), "cell.ods"))
+        except Exception:  # noqa  (the extractor refusing the document is another property's business)
+            continue
+        n += 1
+        for r in results:
+            where = {"file": ".ods with one data cell", "cell": f"<table:table-cell {attrs}><text:p>{text}</text:p>", "sheet_data": repr(r.sheets[0].data) if r.sheets else None}
+            fail = check_instance(r, where)
+            for u in ([] if fail else r.iterate_units()):
+                fail = fail or check_instance(u, dict(where, unit=True))
+            if fail:
+                return fail, n
+    return None, n
+
+
+def xlsx_cells_scope():
+    """Every cell value kind openpyxl can write: numbers, text, booleans, date/time kinds, durations, Decimal, formulas, errors."""
+    import datetime
+    import decimal
+    import openpyxl
+    from sharepoint2text.parsing.extractors.ms_modern.xlsx_extractor import read_xlsx
+    values = [("int", 7), ("big int", 2 ** 53 + 1), ("float", -2.5), ("text", "t"), ("marker text", "_bytes"), ("bool", True), ("none", None),
+              ("datetime", datetime.datetime(2024, 1, 2, 3, 4, 5)), ("date", datetime.date(2024, 1, 2)), ("time", datetime.time(3, 4, 5)),
+              ("duration", datetime.timedelta(hours=1, minutes=30)), ("long duration", datetime.timedelta(days=2, seconds=1)),
+              ("decimal", decimal.Decimal("19.99")), ("formula", "=1+1"), ("error text", "#DIV/0!")]
+    n = 0
+    for label, v in values:
+        wb = openpyxl.Workbook()
+        ws = wb.active
+        ws.append(["name", "value"])
+        ws.append(["a", v])
+        buf = io.BytesIO()
+        try:
+            wb.save(buf)
+            buf.seek(0)
+            results = list(read_xlsx(buf, "cell.xlsx"))
+        except Exception:  # noqa
+            continue
+        n += 1
+        for r in results:
+            where = {"file": f"XLSX with cell B2 = {label} ({v!r})", "sheet_data": repr(r.sheets[0].data) if r.sheets else None}
+            fail = check_instance(r, where)
+            for u in ([] if fail else r.iterate_units()):
+                fail = fail or check_instance(u, dict(where, unit=True))
+            if fail:
+                return fail, n
+    return None, n
+
+
+def xls_cells_scope():
+    """Function level (no .xls writer is available): the real _get_cell_values on real xlrd Cell objects of every cell
+    type x boundary values (date serials below 1 = time of day, whole / fractional numbers, error codes), both date modes."""
+    import xlrd
+    from sharepoint2text.parsing.extractors.ms_legacy import xls_extractor as X
+
+    class Book:
+        def __init__(self, datemode):
+            self.datemode = datemode
+    cases = [(xlrd.XL_CELL_EMPTY, ""), (xlrd.XL_CELL_BLANK, ""), (xlrd.XL_CELL_TEXT, "t"), (xlrd.XL_CELL_TEXT, "_type"), (xlrd.XL_CELL_TEXT, "")]
+    cases += [(xlrd.XL_CELL_NUMBER, v) for v in (0.0, 1.0, -3.0, 2.5, 1e20, -0.0)]
+    cases += [(xlrd.XL_CELL_DATE, v) for v in (0.0, 0.25, 0.5, 0.999988, 1.0, 1.5, 59.0, 60.0, 61.5, 36526.0, 36526.75, 2958465.99, -1.0, 1e10)]
+    cases += [(xlrd.XL_CELL_BOOLEAN, v) for v in (0, 1)] + [(xlrd.XL_CELL_ERROR, v) for v in (0, 7, 15, 42)]
+    n = 0
+    for datemode in (0, 1):
+        for ctype, value in cases:
+            cell = xlrd.sheet.Cell(ctype, value)
+            try:
+                native, text = X._get_cell_values(cell, Book(datemode))
+            except Exception:  # noqa
+                continue
+            n += 1
+            ok = native is None or type(native) in (bool, int, float, str)
+            if ok:
+                try:
+                    json.dumps({"v": native})
+                except Exception:  # noqa
+                    ok = False
+            if not ok or not isinstance(text, str):
+                return {"target": "xls_extractor._get_cell_values", "inputs": {"cell": f"xlrd.sheet.Cell(ctype={ctype}, value={value!r})", "datemode": datemode},
+                        "expected": "a JSON-able scalar (None/bool/int/float/str) for XlsSheet.data", "observed": f"{type(native).__name__}: {native!r}"}, n
+    return None, n
+
+
+def cli_stdout_scope():
+    """cli.main --json / --json-unit (--binary) on a real encoded stdout: exit 0, stdout is strict UTF-8 and parses to exactly
+    the JSON of the results' to_json (object for one result, array otherwise).  Inputs include names / text with lone
+    surrogates (surrogateescape of non-UTF-8 file names), non-BMP and control characters, and an archive with several members."""
+    import tarfile
+    import tempfile
+    import sharepoint2text
+    from sharepoint2text import cli
+    from sharepoint2text.parsing.extractors.serialization import serialize_extraction
+    n = 0
+    with tempfile.TemporaryDirectory() as d:
+        files = []
+        def put(name, data):
+            path = os.path.join(os.fsencode(d), name) if isinstance(name, bytes) else os.path.join(d, name)
+            with open(path, "wb") as fh:
+                fh.write(data)
+            files.append(os.fsdecode(path) if isinstance(path, bytes) else path)
+        put("plain.txt", b"plain ascii\n")
+        put("unicode.txt", "héllo 中文 \U0001f600   end\n".encode("utf-8"))
+        put("ctrl.txt", b"tab\tbell\x07 nul-free\n")
+        try:
+            put(b"caf\xe9.txt", b"name is not UTF-8\n")
+        except OSError:
+            pass
+        tpath = os.path.join(d, "two.tar")
+        with tarfile.open(tpath, "w") as tf:
+            for nm, body in (("a.txt", b"first"), ("bé.txt", b"second")):
+                ti = tarfile.TarInfo(nm)
+                ti.size = len(body)
+                tf.addfile(ti, io.BytesIO(body))
+        files.append(tpath)
+        for path in files:
+            try:
+                results = list(sharepoint2text.read_file(path))
+            except Exception:  # noqa
+                continue
+            for flags in (["--json"], ["--json", "--binary"], ["--json-unit"]):
+                binary = "--binary" in flags
+                if "--json-unit" in flags:
+                    per = [[serialize_extraction(u, include_binary=binary) for u in r.iterate_units()] for r in results]
+                    want = per[0] if len(results) == 1 else per
+                else:
+                    per = [serialize_extraction(r, include_binary=binary) for r in results]
+                    want = per[0] if len(results) == 1 else per
+                want = json.loads(json.dumps(want))
+                raw = io.BytesIO()
+                out = io.TextIOWrapper(raw, encoding="utf-8", errors="strict", newline="")
+                err = io.StringIO()
+                old = sys.stdout, sys.stderr
+                sys.stdout, sys.stderr = out, err
+                try:
+                    try:
+                        rc = cli.main([path] + flags)
+                        out.flush()
+                    except BaseException as e:  # noqa
+                        rc = f"{type(e).__name__}: {e}"
+                finally:
+                    sys.stdout, sys.stderr = old
+                n += 1
+                where = {"argv": [os.path.basename(path)] + flags, "results": len(results), "stdout": "io.TextIOWrapper(utf-8, strict)",
+                         "file_name_bytes": repr(os.fsencode(os.path.basename(path)))}
+                data = raw.getvalue()
+                try:
+                    got = json.loads(data.decode("utf-8", "strict"))
+                except Exception as e:  # noqa
+                    return {"target": "cli.main", "inputs": where, "expected": "exit 0 and stdout = the JSON of to_json (strict UTF-8)",
+                            "observed": f"exit {rc}; stdout {data[:80]!r} is not JSON ({type(e).__name__}); stderr {err.getvalue()[:160]!r}"}, n
+                if rc != 0 or got != want:
+                    return {"target": "cli.main", "inputs": where, "expected": "exit 0 and stdout = the JSON of to_json (object for one result, array otherwise)",
+                            "observed": f"exit {rc}; {_first_diff(want, got) or 'same JSON'}"}, n
+    return None, n
+
+
+SCOPES = ("type-directed-roundtrip", "base64-helpers-boundary-sizes", "post-init-idempotent", "ods-cell-kinds", "xlsx-cell-kinds", "xls-cell-kinds",
+          "cli-stdout-json", "cli-payload-shapes", "fixture-documents")
+
+
+def run_scope(name):
+    """-> (failure or None, description of the bound)."""
+    if name == "type-directed-roundtrip":
+        r, n = type_directed_scope(False)
+        return r, f"{n} instances: 5 type-directed variants of every registered dataclass, strings from a vocabulary with the markers, BOM, whitespace, lone surrogate, control and non-BMP characters"
+    if name == "base64-helpers-boundary-sizes":
+        r = b64_helpers_scope()
+        if r and r["target"].endswith("_bytes_to_base64"):
+            api = b64_api_level(r["inputs"]["length"])
+            if api:
+                r = dict(r, api_level=api)
+        return r, "payload sizes 0..7, 57/58, 76/77, 255..65537 and c-1..c+2, 2c, 2c+1, 3c+1 around every integer constant c of serialization.py; bytes, bytearray, streams at 3 positions"
+    if name == "post-init-idempotent":
+        r, n = post_init_scope()
+        return r, f"{n} instances: every str field of every dataclass with __post_init__ x all token sequences of length <= 3 over {NORM_TOKENS!r}"
+    if name == "ods-cell-kinds":
+        r, n = ods_cells_scope()
+        return r, f"{n} one-cell .ods documents: value types float/currency/percentage/date/time/boolean/string/void/untyped x whole, fractional, negative, exponent, huge, text, empty values"
+    if name == "xlsx-cell-kinds":
+        r, n = xlsx_cells_scope()
+        return r, f"{n} one-cell .xlsx documents: int, float, text, bool, None, datetime, date, time, durations, Decimal, formula, error text"
+    if name == "xls-cell-kinds":
+        r, n = xls_cells_scope()
+        return r, f"{n} calls of _get_cell_values on xlrd Cell objects: 7 cell types x boundary values (date serials < 1, 59..61, huge, negative), date modes 0/1"
+    if name == "cli-stdout-json":
+        r, n = cli_stdout_scope()
+        return r, f"{n} cli.main runs on a strict UTF-8 stdout: ASCII / non-BMP / control-character text, a file name that is not UTF-8, a two-member tar; --json, --json --binary, --json-unit"
+    if name == "cli-payload-shapes":
+        return cli_shapes(), "0, 1, 2 results x binary on/off"
+    if name == "fixture-documents":
+        r, n = fixtures_scope()
+        return r, f"results and units of {n} fixture documents"
+    raise KeyError(name)
+
+
+def native_scopes(only=None):
+    out = {}
+    for name in SCOPES:
+        if only and name not in only:
+            continue
+        try:
+            r, bound = run_scope(name)
+            out[name] = {"failure": r, "bound": bound}
+        except Exception:  # noqa
+            import traceback
+            out[name] = {"error": traceback.format_exc()[-800:]}
+    return out
+
+
+# obligation (sub)string -> directed scopes that look for a failing input of that construct
+ROUTES = (("native-scope/bounded#", None),
+          ("_bytes_to_base64", ("base64-helpers-boundary-sizes",)), ("_bytesio_to_base64", ("base64-helpers-boundary-sizes",)),
+          ("_base64_to_bytes", ("base64-helpers-boundary-sizes",)),
+          ("post-init", ("post-init-idempotent",)),
+          ("ods_extractor", ("ods-cell-kinds",)),
+          ("xlsx_extractor", ("xlsx-cell-kinds",)),
+          ("xls_extractor", ("xls-cell-kinds",)),
+          ("cli.py::main", ("cli-stdout-json",)), ("cli.py", ("cli-payload-shapes", "cli-stdout-json")))
+
+
+def directed(ob):
+    for key, scopes in ROUTES:
+        if key in ob:
+            if scopes is None:
+                name = ob.split("bounded#", 1)[1].split(".BOUNDED")[0]
+                scopes = (name,) if name in SCOPES else ()
+            for sc in scopes:
+                r, bound = run_scope(sc)
+                if r:
+                    return dict(r, reproduced=True, scope=sc, bound=bound)
+            return {"reproduced": False, "note": "BOUNDED directed scope(s) clean: " + ", ".join(scopes)} if scopes else None
+    return None
+
+
 def find(req):
     ob = req.get("obligation", "") or ""
     kf = req.get("known_finding")
@@ -422,14 +790,14 @@ def find(req):
             hit["observed"] = "; ".join(f"[{lbl}] {r['observed']}" for lbl, r in (("rows {'_type': 'PdfContent'}", a), ("real .xls, header `_bytes`", b)) if r)
             return hit
         return {"reproduced": False, "note": "marker keys in document mappings survive the round trip"}
-    if "_get_cell_value" in ob and "xlsx" in (req.get("function") or ob):
-        r = f5_xlsx_duration()
-        if r:
-            return dict(r, reproduced=True)
-        return {"reproduced": False, "note": "an XLSX duration cell serialises"}
-    if "cli.py" in ob:
-        r = cli_shapes()
-        return dict(r, reproduced=True) if r else {"reproduced": False, "note": "CLI payload shapes hold natively"}
+    if req.get("all_scopes"):
+        sc = native_scopes()
+        bad = [k for k, v in sc.items() if v.get("failure")]
+        return {"reproduced": bool(bad), "scopes": sc}
+    key = ob + " " + (req.get("function") or "")
+    d = directed(key)
+    if d is not None and (d.get("reproduced") or "native-scope/bounded#" in ob):
+        return d
     r, n = type_directed_scope(marker_keys=False)
     if r:
         return dict(r, reproduced=True)
@@ -459,6 +827,12 @@ if __name__ == "__main__":
     logging.disable(logging.CRITICAL)
     if "--registry-dump" in sys.argv:
         print(json.dumps(registry_dump()))
+    elif "--scopes" in sys.argv:
+        import time
+        for name in SCOPES:
+            t0 = time.time()
+            r, bound = run_scope(name)
+            print(name, round(time.time() - t0, 2), "FAIL " + json.dumps(r, default=repr)[:600] if r else "clean", "|", bound[:100], flush=True)
     elif "--scope" in sys.argv:
         r, n = type_directed_scope(False)
         print(json.dumps({"failure": r, "instances": n}, default=repr))
